@@ -304,6 +304,10 @@ func (s *EMTState) edgeMultiComputeRecordSpecs(raw []RawType, frameIndexOfraw0 F
 	recordSpecs := make([]RecordSpec, 0)
 	if iFirst < maxLookback { // state has been reset
 		iFirst = maxLookback
+		if s.enableZeroThreshold {
+			// the kink model may move a trigger one sample earlier; keep npre samples before it
+			iFirst = maxLookback + 1
+		}
 		if s.iFirstCheckSentinel {
 			log.Println("reseting edge multi state unexpectedly")
 		}
